@@ -36,6 +36,25 @@ R["T29"] = ("++i -> i += 1 in loop headers", [(r"; \+\+(\w+)\)", r"; \1 += 1)", 
 R["T30"] = ("i < n -> i <= (n) - 1 in int loops", [(r"(for \(int (\w+) = [^;]+; )\2 < ([^;]+);", r"\1\2 <= (\3) - 1;", 0)], HDRS)
 R["T35"] = ("k.0 * x -> k * x", [(r"(?<![\w.])(\d+)\.0 \* ", r"\1 * ", 0)], HDRS)
 R["T39"] = ("const auto &x = member[i] -> const auto x = member[i]", [(r"const auto &(\w+) = (\w+_\[[^\]]+\]);", r"const auto \1 = \2;", 0)], HDRS)
+# T40 / T41: additions that change no result - a diagnostic counter bumped by every cubic update (with a getter), and an
+# argument check that throws on an empty problem (outside the domain of every property)
+R["T40"] = ("diagnostic update counter added to the cubic spline", [], ("SplineTrajectory.hpp",))
+R["T41"] = ("update throws on an empty problem", [(r"^(\s+)(num_segments_ = static_cast<int>\(time_segments_\.size\(\)\);)$",
+                                                  r'\1if (time_segments_.empty())\n\1    throw std::invalid_argument("spline update: no segments");\n\1\2', re.M),
+                                                 (r"#include <vector>", "#include <vector>\n#include <stdexcept>", 0)], ("SplineTrajectory.hpp",))
+
+
+def t40(s):
+    a = "        inline void updateSplineInternal()\n        {\n            num_segments_ = static_cast<int>(time_segments_.size());\n"
+    if s.count(a) != 1:
+        return s, 0
+    s = s.replace(a, a + "            ++update_count_;\n")
+    b = "        int num_segments_;\n"
+    i = s.index(b, s.index("class CubicSplineND"))
+    s = s[:i] + b + "        int update_count_ = 0;\n" + s[i + len(b):]
+    g = "        int getNumSegments() const\n"
+    j = s.index(g, s.index("class CubicSplineND"))
+    return s[:j] + "        int getUpdateCount() const { return update_count_; }\n\n" + s[j:], 3
 
 CHECKS = [l.strip() for l in open(os.path.join(VERIF, "tools", "ready.txt")) if l.strip() and not l.startswith("#")]
 bad = 0
@@ -50,6 +69,9 @@ for t in (sys.argv[1:] or sorted(R)):
             s = open(p).read()
             for pat, rep, fl in rules:
                 s, k = re.subn(pat, rep, s, flags=fl)
+                n += k
+            if t == "T40":
+                s, k = t40(s)
                 n += k
             if t == "T16":
                 for a in ASSERT_ANCHORS.get(h, []):
